@@ -69,52 +69,62 @@ AllConfigs == CASE IOEnv.PNC_CAMX_FAMILY = "met" -> MetConfigs
                 [] Big -> BigConfigs
                 [] OTHER -> {x \in Configs : TimesExpressible(x)}
 
-VARIABLES c, n
-vars == <<c, n>>
-Init == c \in AllConfigs /\ n = 0
-Next == ~Big /\ n < FileBytes(c) /\ n' = n + 1 /\ c' = c
-Spec == Init /\ [][Next]_vars
-
-\* ---- the memory-mapped uamiv reader's decision procedure on the first n bytes
+\* c: the configuration, n: the cut offset, z: the sizes of c's layout (computed
+\* once from the grammar, so that the per-offset invariants are arithmetic)
+VARIABLES c, n, z
+vars == <<c, n, z>>
 HeaderBytes(cc) == Offset(cc, NHeader(cc))
 BlockBytes(cc) == Offset(cc, NHeader(cc) + RecsPerStep(cc)) - HeaderBytes(cc)
-UamivOpen(cc, nn) ==
-  IF nn < HeaderBytes(cc) THEN [k |-> "Err", n |-> 0]             \* a header cannot be mapped
-  ELSE IF (nn - HeaderBytes(cc)) % BlockBytes(cc) # 0 THEN [k |-> "Err", n |-> 0]   \* "Partial time output"
-  ELSE IF nn = HeaderBytes(cc) THEN [k |-> "Err", n |-> 0]         \* nothing to map
-  ELSE [k |-> "Steps", n |-> (nn - HeaderBytes(cc)) \div BlockBytes(cc)]
+SizesOf(cc) == [hb |-> IF Big THEN UamivHeaderBytesA(cc) ELSE HeaderBytes(cc),
+                bb |-> IF Big THEN UamivBlockBytesA(cc) ELSE BlockBytes(cc),
+                fb |-> IF Big THEN UamivFileBytesA(cc) ELSE FileBytes(cc),
+                wd |-> IF cc.fmt = "wind" THEN WindDummyOffset(cc) ELSE 0]
+\* only C14 walks the cut offsets; the other checks use the configurations
+Cuts == IOEnv.PNC_CAMX_CUTS = "1"
+Init == c \in AllConfigs /\ n = 0 /\ z = SizesOf(c)
+Next == ~Big /\ Cuts /\ n < z.fb /\ n' = n + 1 /\ UNCHANGED <<c, z>>
+Spec == Init /\ [][Next]_vars
+Complete(nn) == IF nn < z.hb THEN 0 ELSE (nn - z.hb) \div z.bb
 
-\* ---- the memory-mapped wind reader's decision procedure (CamxLayout.WindOpenF)
+\* ---- the memory-mapped uamiv reader's decision procedure on the first n bytes
+UamivOpen(nn) ==
+  IF nn < z.hb THEN [k |-> "Err", n |-> 0]                        \* a header cannot be mapped
+  ELSE IF (nn - z.hb) % z.bb # 0 THEN [k |-> "Err", n |-> 0]      \* "Partial time output"
+  ELSE IF nn = z.hb THEN [k |-> "Err", n |-> 0]                   \* nothing to map
+  ELSE [k |-> "Steps", n |-> (nn - z.hb) \div z.bb]
+
+\* ---- the memory-mapped wind reader's decision procedure (CamxLayout.WindOpenZ)
 WindLegacyCount == IOEnv.PNC_CAMX_DEV = "wind_legacy_count"
-WindOpen(cc, nn) == WindOpenF(cc, nn, WindLegacyCount)
-WindNeverFabricates == (c.fmt = "wind") => LET o == WindOpen(c, n) IN o.k = "Steps" => o.n <= CompleteSteps(c, n)
-WindFullFileReadsAll == (c.fmt = "wind" /\ n = FileBytes(c)) => WindOpen(c, n) = [k |-> "Steps", n |-> c.nt]
+WindOpen(nn) == WindOpenZ(z.wd, z.bb, nn, WindLegacyCount)
+WindNeverFabricates == (c.fmt = "wind") => LET o == WindOpen(n) IN o.k = "Steps" => o.n <= Complete(n)
+WindFullFileReadsAll == (c.fmt = "wind" /\ n = z.fb) => WindOpen(n) = [k |-> "Steps", n |-> c.nt]
 
 \* ---- cloud/rain and lateral boundary
 CloudNeverFabricates == (c.fmt = "cloud_rain" /\ ~CloudAliased(c, n)) =>
-                           LET o == CloudOpenF(c, n) IN o.k = "Steps" => o.n <= CompleteSteps(c, n)
-CloudFullFileReadsAll == (c.fmt = "cloud_rain" /\ n = FileBytes(c)) => CloudOpenF(c, n) = [k |-> "Steps", n |-> c.nt, nv |-> c.nv]
-CloudSizes == (c.fmt = "cloud_rain" /\ n = 0) => (CloudHeaderBytes(c) = HeaderBytes(c) /\ CloudStepBytesNV(c, c.nv) = BlockBytes(c))
+                           LET o == CloudOpenF(c, n) IN o.k = "Steps" => o.n <= Complete(n)
+CloudFullFileReadsAll == (c.fmt = "cloud_rain" /\ n = z.fb) => CloudOpenF(c, n) = [k |-> "Steps", n |-> c.nt, nv |-> c.nv]
+CloudSizes == (c.fmt = "cloud_rain" /\ n = 0) => (CloudHeaderBytes(c) = z.hb /\ CloudStepBytesNV(c, c.nv) = z.bb)
 \* the lateral boundary reader: whole blocks after the eight header records
-LatOpen(cc, nn) ==
-  IF nn <= HeaderBytes(cc) THEN [k |-> "Err", n |-> 0]
-  ELSE IF (nn - HeaderBytes(cc)) % BlockBytes(cc) # 0 THEN [k |-> "Err", n |-> 0]
-  ELSE [k |-> "Steps", n |-> (nn - HeaderBytes(cc)) \div BlockBytes(cc)]
-LatNeverFabricates == (c.fmt = "lateral_boundary") => LET o == LatOpen(c, n) IN o.k = "Steps" => o.n <= CompleteSteps(c, n)
-LatFullFileReadsAll == (c.fmt = "lateral_boundary" /\ n = FileBytes(c)) => LatOpen(c, n) = [k |-> "Steps", n |-> c.nt]
+LatOpen(nn) ==
+  IF nn <= z.hb THEN [k |-> "Err", n |-> 0]
+  ELSE IF (nn - z.hb) % z.bb # 0 THEN [k |-> "Err", n |-> 0]
+  ELSE [k |-> "Steps", n |-> (nn - z.hb) \div z.bb]
+LatNeverFabricates == (c.fmt = "lateral_boundary") => LET o == LatOpen(n) IN o.k = "Steps" => o.n <= Complete(n)
+LatFullFileReadsAll == (c.fmt = "lateral_boundary" /\ n = z.fb) => LatOpen(n) = [k |-> "Steps", n |-> c.nt]
 
-NeverFabricates == (c.fmt = "uamiv" /\ ~Big) => LET o == UamivOpen(c, n) IN o.k = "Steps" => o.n <= CompleteSteps(c, n)
-FullFileReadsAll == (c.fmt = "uamiv" /\ ~Big /\ n = FileBytes(c)) => UamivOpen(c, n) = [k |-> "Steps", n |-> c.nt]
-Tiles == Big \/ FileBytes(c) = HeaderBytes(c) + c.nt * BlockBytes(c)
+NeverFabricates == (c.fmt = "uamiv" /\ ~Big) => LET o == UamivOpen(n) IN o.k = "Steps" => o.n <= Complete(n)
+FullFileReadsAll == (c.fmt = "uamiv" /\ ~Big /\ n = z.fb) => UamivOpen(n) = [k |-> "Steps", n |-> c.nt]
+\* the sizes in z are those of the grammar: the file is tiled by header + nt blocks,
+\* and the arithmetic step count agrees with the record-by-record definition
+Tiles == (Big \/ n > 0) \/ (FileBytes(c) = z.hb + c.nt * z.bb /\ z.fb = FileBytes(c)
+                              /\ \A m \in {0, z.hb, z.hb + z.bb - 1, z.hb + z.bb, z.fb} : Complete(m) = CompleteSteps(c, m))
 \* the closed-form sizes agree with the grammar
 AnalyticSizes == (c.fmt = "uamiv" /\ ~Big /\ n = 0) =>
-  /\ UamivHeaderBytesA(c) = HeaderBytes(c) /\ UamivBlockBytesA(c) = BlockBytes(c) /\ UamivFileBytesA(c) = FileBytes(c)
+  /\ UamivHeaderBytesA(c) = z.hb /\ UamivBlockBytesA(c) = z.bb /\ UamivFileBytesA(c) = z.fb
 EmitConstraint ==
   IF IOEnv.PNC_EMIT = "1" /\ n = 0
   THEN IF Big
-       THEN PrintT(ToJson([cfg |-> c, recs |-> ConcreteC(c), bytes |-> UamivFileBytesA(c),
-                           header |-> UamivHeaderBytesA(c), block |-> UamivBlockBytesA(c)]))
-       ELSE PrintT(ToJson([cfg |-> c, recs |-> Concrete(c), bytes |-> FileBytes(c),
-                           header |-> HeaderBytes(c), block |-> BlockBytes(c)]))
+       THEN PrintT(ToJson([cfg |-> c, recs |-> ConcreteC(c), bytes |-> z.fb, header |-> z.hb, block |-> z.bb]))
+       ELSE PrintT(ToJson([cfg |-> c, recs |-> Concrete(c), bytes |-> z.fb, header |-> z.hb, block |-> z.bb]))
   ELSE TRUE
 =================================================================================
